@@ -32,6 +32,11 @@ def build():
                    extra=["-Wl,--wrap=readv,--wrap=writev,--wrap=sendfile,--wrap=read,--wrap=write"])
 
 
+def _workers(dflt):
+    """EVB_WORKERS caps the TLC worker count (shared machine while developing)."""
+    return min(dflt, int(os.environ.get("EVB_WORKERS", dflt)))
+
+
 def strip_obs(h):
     return [{k: v for k, v in s.items() if k != "o"} for s in h]
 
@@ -49,7 +54,7 @@ def generate(chk, name, c, *, simulate=None, depth=None, seed=None, invariants=(
         if max_hist is None or len(hists) < max_hist:
             hists.append(v)
     res = vkit.tlc("Evbuffer", cfg, simulate=simulate, depth=depth, seed=seed, print_sink=sink, timeout=timeout,
-                   workers=workers or (8 if simulate else vkit.NCPU))
+                   workers=workers or _workers(8 if simulate else vkit.NCPU))
     chk.add_tlc(name, res)
     return hists
 
@@ -63,7 +68,7 @@ def model_check(chk, name, c, *, timeout=1200, workers=None):
     """Decide the invariants / action properties on the bounded state graph (hist hidden by the VIEW is not
     possible here because the action properties read hist; the depth bound keeps it finite)."""
     cfg = vkit.write_cfg(name, c, invariants=INV_LIST, constraint="GenConstraint", view="StateView")
-    res = vkit.tlc("Evbuffer", cfg, want_prints=False, timeout=timeout, workers=workers or vkit.NCPU)
+    res = vkit.tlc("Evbuffer", cfg, want_prints=False, timeout=timeout, workers=workers or _workers(vkit.NCPU))
     chk.add_tlc(name, res)
     return res
 
@@ -149,6 +154,9 @@ def standard_run(pid, tier, seed, plan):
             hs = hs[seed % g["stride"]::g["stride"]]
         if not hs:
             raise vkit.InfraError("generator %s produced no histories" % g["name"])
+        pred = plan.get("need_hist", {}).get(g["name"])
+        if pred and not any(pred(h) for h in hs):
+            raise vkit.InfraError("vacuous corpus: generator %s lacks the required history" % g["name"])
         for h in hs:
             chk.count_case([g["consts"]["WA"], g["consts"]["WB"], strip_obs(h)], nontrivial(h))
         for h in hs[:1]:
